@@ -1178,6 +1178,12 @@ def _peeklist(w, c):
 
 def _struct_fmt(sa, style):
     prefix, codes = sa[0], sa[1:]
+    if style & 4:
+        # a repeated block of codes written with a multiplier: hBhB -> 2*>hB
+        n = len(codes)
+        for blk in range(1, n // 2 + 1):
+            if n % blk == 0 and all(codes[i] == codes[i % blk] for i in range(n)):
+                return f'{n // blk}*{prefix}' + ''.join(codes[:blk])
     if style & 2:
         out, i = '', 0
         while i < len(codes):
